@@ -1,5 +1,6 @@
 SPECIFICATION FairSpec
 CONSTANTS N = 3
+  MaxEdges = 16
   Loops = TRUE
   Mutant = "none"
 INVARIANT Inv
